@@ -391,6 +391,11 @@ func (c *vfC15Ctx) apply(o vfC15Op) (fails []vfC15Fail) {
 		grown := h.RootIndirectBlock != nil
 		var err error
 		what := "WriteToFile"
+		preW := c.canon()
+		var imgBefore []byte
+		if o.K == vfC15WriteAtLoad {
+			imgBefore = c.mem.snapshot()
+		}
 		if o.K == vfC15WriteLoad {
 			c.mem = vfKitNewMem()
 			c.hdrAddr, err = h.WriteToFile(c.mem, c.mem, vfKitSB())
@@ -401,7 +406,10 @@ func (c *vfC15Ctx) apply(o vfC15Op) (fails []vfC15Fail) {
 		fmt.Fprintf(&c.log, "%s:%s;", what, vfKitErrText(err))
 		if err != nil {
 			c.outcome = what + ":error"
-			if grown {
+			// a refused write must at least be harmless: heap unchanged, nothing written
+			if post := c.canon(); post != preW || (imgBefore != nil && vfKitFirstDiff(imgBefore, c.mem.data) >= 0) || (imgBefore == nil && len(c.mem.data) > 0) {
+				fail("refused-write-changed-state@"+what, map[string]any{"err": vfKitErrText(err), "before": preW, "after": post})
+			} else if grown {
 				fail("grown-heap-not-persisted/write-error", map[string]any{"err": vfKitErrText(err), "call": what})
 			} else {
 				fail("write-error@"+what, map[string]any{"err": vfKitErrText(err)})
